@@ -48,15 +48,16 @@ POOL_JSON = (
     + [{"t": "tuple", "v": [1, 2]}, {"t": "tuple", "v": [0]}]
     + [{"t": "evil", "v": 0}, {"t": "evil", "v": 1}]
     # unusual but legal elements: None, empty things, NaN (one shared object), numbers equal across types, near-twin strings
-    + [{"t": "none", "v": 0}, {"t": "str", "v": ""}, {"t": "tuple", "v": []}, {"t": "nan", "v": 0}, {"t": "int", "v": 0},
+    + [{"t": "none", "v": 0}, {"t": "str", "v": ""}, {"t": "tuple", "v": []}, {"t": "nan", "v": 0}, {"t": "nan", "v": 1}, {"t": "int", "v": 0},
        {"t": "bool", "v": False}, {"t": "float", "v": 0.0}, {"t": "str", "v": "A"}, {"t": "str", "v": "a "},
        {"t": "bytes", "v": "a"}, {"t": "decimal", "v": 1}, {"t": "fraction", "v": 2}, {"t": "frozenset", "v": [1, 2]},
        {"t": "str", "v": "x" * 300 + "1"}, {"t": "str", "v": "x" * 300 + "2"}]
     # a long tail of plain ints, used only by "big" runs: sets larger than any small-size fast path
     + [{"t": "int", "v": i} for i in range(6, 150)]
 )
+NAN2 = float("nan")  # a second, distinct NaN object: a plain set keeps both
 NAN = float("nan")  # plain sets treat the *same* NaN object as one element (identity is tried before ==)
-N_SMALL_POOL = 17 + 15
+N_SMALL_POOL = 17 + 16
 
 
 def dec_elem(j: Dict[str, Any]):
@@ -76,7 +77,7 @@ def dec_elem(j: Dict[str, Any]):
     if t == "none":
         return None
     if t == "nan":
-        return NAN
+        return NAN if int(v) == 0 else NAN2
     if t == "bytes":
         return str(v).encode("ascii")
     if t == "decimal":
@@ -260,10 +261,10 @@ def _gen_iter(r, pool_idx, allow_fault: bool, kinds=None, allow_slot=True) -> Di
         r.shuffle(idx)
     items = [POOL_JSON[i] for i in idx]
     if kind in ("set", "frozenset"):
-        items = [e for e in items if e["t"] not in ("str", "bytes", "none", "frozenset", "decimal", "fraction")]
+        items = [e for e in items if e["t"] not in ("str", "bytes", "none", "frozenset", "decimal", "fraction", "nan")]
     if kind in ("dict", "dictkeys"):
         # a keys view is a Set: Set-mixin operators may route through plain sets, whose order for str is hash-seed salted
-        items = [e for e in items if e["t"] not in ("evil", "str", "bytes", "none", "frozenset", "decimal", "fraction")]
+        items = [e for e in items if e["t"] not in ("evil", "str", "bytes", "none", "frozenset", "decimal", "fraction", "nan")]
     j: Dict[str, Any] = {"kind": kind, "items": items}
     if allow_fault and kind in ("list", "gen"):
         j["fail_after"] = r.randrange(len(items) + 1)
